@@ -14,9 +14,10 @@ def demo():
 diff = sh('git diff -- src').stdout
 assert diff.strip(), 'no source change in worktree'
 ok_with, out_with = demo()
-sh('git stash push -- src')
+open('/tmp/ingest_seed.patch', 'w').write(diff)
+sh('git checkout -- src')
 ok_without, out_without = demo()
-sh('git stash pop')
+sh('git apply /tmp/ingest_seed.patch')
 assert sh('git diff -- src').stdout == diff
 suite = sh('cargo test --workspace --no-fail-fast --offline 2>&1 | grep -E "^test result|^test .* FAILED|Running"')
 lines = suite.stdout.splitlines()
